@@ -251,3 +251,61 @@ def harvest_expects(body):
         e = match_close(body, k, "(", ")")
         conds.append(body[k + 1 : e].strip())
     return conds
+
+
+class LoopContracts:
+    """Inject loop contracts by loop ordinal (text order of for/while/do headers).
+
+    contracts: list with one entry per loop in the body, in text order; each
+    entry is the contract text to insert after the loop header's closing
+    parenthesis (for `do` loops: after the trailing `while (...)`), or None to
+    leave the loop without contract (it is then unwound).  The number of loops
+    found must equal len(contracts), otherwise ExtractionDrift: an added or
+    removed loop is never silently left without its invariant.  Header *text*
+    is free to change (that is what a mutant or a refactor edits)."""
+
+    def __init__(self, contracts, note="loop contracts injected by ordinal"):
+        self.contracts = contracts
+        self.note = note
+        self.pat = "loop-contracts[%d]" % len(contracts)
+
+    def apply(self, text, report, where):
+        # find loop keywords at any depth, in order
+        heads = []  # (kind, insert_pos)
+        do_stack = []
+        for m in re.finditer(r"\b(for|while|do)\b", text):
+            kind = m.group(1)
+            if kind == "do":
+                heads.append(["do", None, m.start()])
+                continue
+            k = m.end()
+            while text[k].isspace():
+                k += 1
+            if text[k] != "(":
+                raise ExtractionDrift("loop keyword without ( in " + where)
+            e = match_close(text, k, "(", ")")
+            if kind == "while":
+                # is this the tail of a do-while?  (followed by ';' and preceded by '}')
+                t = e + 1
+                while t < len(text) and text[t].isspace():
+                    t += 1
+                b = m.start() - 1
+                while b >= 0 and text[b].isspace():
+                    b -= 1
+                if t < len(text) and text[t] == ";" and b >= 0 and text[b] == "}":
+                    # attach to the innermost open do without tail
+                    for h in reversed(heads):
+                        if h[0] == "do" and h[1] is None:
+                            h[1] = e + 1
+                            break
+                    continue
+            heads.append([kind, e + 1, m.start()])
+        if len(heads) != len(self.contracts):
+            raise ExtractionDrift("%d loops found in %s, %d loop contracts declared" % (len(heads), where, len(self.contracts)))
+        ins = sorted(((h[1], c) for h, c in zip(heads, self.contracts) if c), reverse=True)
+        for pos, c in ins:
+            if pos is None:
+                raise ExtractionDrift("do-loop without while tail in " + where)
+            text = text[:pos] + "\n" + c + "\n" + text[pos:]
+        report.append({"where": where, "rule": self.pat, "fires": len(ins), "expected": str(len(ins)), "note": self.note})
+        return text
